@@ -36,7 +36,12 @@ func (m *CheckServiceNode) UniqueID() string {
 	}
 
 	if m.Node != nil {
-		builder.WriteString(m.Node.Node + "/")
+		// Node names are case-insensitive in the catalog: a node re-registered under a
+		// differently-cased name is the same node, and the health events that follow carry
+		// the new spelling (registrations) or the spelling stored with the service
+		// (deregistrations). The identifier must not depend on the spelling, or views keyed
+		// by it keep a stale copy of every instance of that node.
+		builder.WriteString(strings.ToLower(m.Node.Node) + "/")
 	}
 	if m.Service != nil {
 		namespace := ""
